@@ -320,6 +320,10 @@ class Typer:
                 if bt[1] == '<pkg>':
                     if node.attr in self.m.modules:
                         return ('mod', node.attr)
+                    # names re-exported by pycdlib/__init__.py
+                    pm = self.m.modules.get('pycdlib')
+                    if pm is not None and node.attr in pm.classes:
+                        return ('type', ('cls', pm.classes[node.attr].qual))
                 return ANY
             if bt[0] == 'type':
                 inner = bt[1]
@@ -543,6 +547,11 @@ class Typer:
         if isinstance(f, ast.Attribute):
             bt = self._expr_type(f.value, fi)
             m = f.attr
+            if bt is not None and bt[0] == 'mod' and bt[1] == '<pkg>':
+                pm = self.m.modules.get('pycdlib')
+                if pm is not None and m in pm.classes:
+                    return pm.classes[m].qual, 'ctor'
+                return [], 'external'
             if bt is not None and bt[0] == 'mod':
                 mod = self.m.modules.get(bt[1])
                 if mod is not None:
